@@ -5,6 +5,7 @@ V = os.path.dirname(os.path.dirname(os.path.abspath(__file__)))
 tiers = json.load(open(os.path.join(V, "tiers.json")))
 props = [json.loads(l) for l in open(os.path.join(V, "properties.jsonl"))]
 LEVEL = {
+ "C08": ("DESIGN.md §5 C08", "Seeded search over schedules (lock-site yields, latencies, ack order) of concurrent writers on a fault-free real 3-node cluster with the real coordinator; wire-level and end-of-run invariants on offsets, responses, apply order and the commit offset."),
  "C09": ("DESIGN.md §5 C09", "Seeded search over generated WAL programs (segment/entry sizes, truncation/trim/reopen placement) run on the real WAL inside a simulated-clock bubble and compared op by op with a list model. Sampling, not proof: a clean batch is evidence that the WAL refines the list model on the explored programs."),
  "C10": ("DESIGN.md §5 C10", "Seeded search over crash images (durable shadow + any subset of unsynced pages, torn page, lost index files) and single mutations of record headers/payload/index files for both formats; the real recovery code reopens and reads each image inside recover(). Evidence that recovery yields a clean prefix or an error on the explored images."),
  "C11": ("DESIGN.md §5 C11", "Seeded search over key sets biased to '/' and block boundaries with flush/compaction/restart schedules on the real Pebble-backed KV, against an independently written sorted reference; comparator laws and the engine's separator/successor contract on sampled triples."),
